@@ -12,7 +12,13 @@ Abstract input (small JSON):
                'wm' | 'wmi' | 'sim': None | [[numbers exact in float32]],
                'wm_dtype' | 'wmi_dtype' | 'sim_dtype': 'float32' | 'float64' (optional, default float64/float64/float32),
                'ncd': int, 'rate': float, 'offset': int,
-               'st': [template id of each spike of the probe]   (optional)}, ...],
+               'st': [template id of each spike of the probe]   (optional),
+               'lay': {file key: form}   (optional) STORAGE FORM of the probe's .npy files: file key in LAY_KEYS ('cm', 'pos',
+                                   'tmpl', 'pc', 'tf', 'wm', 'wmi', 'sim'), form a string that may contain 'F' (the file is
+                                   written in Fortran / column-major order, header fortran_order=True, as MATLAB npy writers
+                                   do) and '>' (the file is written byte-swapped / big-endian, header descr '>i4', '>f8' ...).
+                                   np.load returns exactly the same values and the same dtype name for every form, so
+                                   the model does not see this field: the merged dataset must not depend on it.}, ...],
    'pre': [[probe indices], ...]   (optional) HISTORY: merges done earlier IN THE SAME PROCESS over (sub)lists of the same
                                    probe directories (any order, repetition of a list allowed), each into its own output
                                    directory, before the merge that is observed,
@@ -99,7 +105,43 @@ def gen_probe(rng, nc=None, nt=None, ns=3, pcw=2, tfw=2, **o):
                 m[rng.randrange(len(m))][rng.randrange(len(m))] = rng.choice(FINE)
             if len(m) >= 1 and rng.random() < 0.5:
                 m[0][0] = rng.choice(FINE[:6])
+    lay = o.get('lay')
+    if lay is None:
+        lay = gen_lay(rng) if rng.random() < 0.35 else {}
+    if lay:
+        p['lay'] = dict(lay)
     return p
+
+
+LAY_KEYS = ('cm', 'pos', 'tmpl', 'pc', 'tf', 'wm', 'wmi', 'sim')
+LAY_FORMS = ('F', '>', 'F>')
+
+
+def gen_lay(rng):
+    """storage form of the files of one probe: every file in one form (a dataset written by a column-major / big-endian
+    tool chain), or an independent form per file"""
+    mode = rng.choice(['all', 'all', 'each', 'each', 'each', 'one'])
+    if mode == 'all':
+        f = rng.choice(LAY_FORMS)
+        return {k: f for k in LAY_KEYS}
+    if mode == 'one':
+        return {rng.choice(LAY_KEYS): rng.choice(LAY_FORMS)}
+    lay = {}
+    for k in LAY_KEYS:
+        f = rng.choice(('', '') + LAY_FORMS)
+        if f:
+            lay[k] = f
+    return lay
+
+
+def store(path, a, form=''):
+    """np.save of the array in the given storage form ('' = C order, native byte order)"""
+    import numpy as np
+    if '>' in (form or ''):
+        a = a.astype(a.dtype.newbyteorder('>'))
+    if 'F' in (form or ''):
+        a = np.asfortranarray(a)
+    np.save(path, a)
 
 
 # matrix entries that float32 cannot hold exactly (or at all: 1e-50 underflows to 0 in float32)
@@ -145,23 +187,24 @@ def materialise(inp, base):
     for k, p in enumerate(inp['probes']):
         d = os.path.join(base, 'p%d' % k)
         os.makedirs(d)
+        lay = p.get('lay') or {}
         n, nt = len(p['cm']), len(p['tmpl'])
         cm = np.array(p['cm'], dtype=p['cm_dtype'])
         if inp.get('vec2d'):
             cm = cm.reshape(-1, 1)
-        np.save(os.path.join(d, 'channel_map.npy'), cm)
+        store(os.path.join(d, 'channel_map.npy'), cm, lay.get('cm'))
         pos = (np.array(p['pos'], dtype='float64') / UNIT).astype(p['pos_dtype']).reshape(n, 2)
-        np.save(os.path.join(d, 'channel_positions.npy'), pos)
-        np.save(os.path.join(d, 'templates.npy'), np.array(p['tmpl'], dtype=p['tmpl_dtype']).reshape(nt, -1, n))
-        np.save(os.path.join(d, 'pc_feature_ind.npy'), np.array(p['pc'], dtype=p['ind_dtype']).reshape(nt, -1))
+        store(os.path.join(d, 'channel_positions.npy'), pos, lay.get('pos'))
+        store(os.path.join(d, 'templates.npy'), np.array(p['tmpl'], dtype=p['tmpl_dtype']).reshape(nt, -1, n), lay.get('tmpl'))
+        store(os.path.join(d, 'pc_feature_ind.npy'), np.array(p['pc'], dtype=p['ind_dtype']).reshape(nt, -1), lay.get('pc'))
         dts = probe_dtypes(p)
-        np.save(os.path.join(d, 'template_feature_ind.npy'), np.array(p['tf'], dtype=dts[4]).reshape(nt, -1))
+        store(os.path.join(d, 'template_feature_ind.npy'), np.array(p['tf'], dtype=dts[4]).reshape(nt, -1), lay.get('tf'))
         if p.get('wm') is not None:
-            np.save(os.path.join(d, 'whitening_mat.npy'), np.array(p['wm'], dtype=dts[5]).reshape(n, n))
+            store(os.path.join(d, 'whitening_mat.npy'), np.array(p['wm'], dtype=dts[5]).reshape(n, n), lay.get('wm'))
         if p.get('wmi') is not None:
-            np.save(os.path.join(d, 'whitening_mat_inv.npy'), np.array(p['wmi'], dtype=dts[6]).reshape(n, n))
+            store(os.path.join(d, 'whitening_mat_inv.npy'), np.array(p['wmi'], dtype=dts[6]).reshape(n, n), lay.get('wmi'))
         if p.get('sim') is not None:
-            np.save(os.path.join(d, 'similar_templates.npy'), np.array(p['sim'], dtype=dts[7]).reshape(nt, nt))
+            store(os.path.join(d, 'similar_templates.npy'), np.array(p['sim'], dtype=dts[7]).reshape(nt, nt), lay.get('sim'))
         with open(os.path.join(d, 'params.py'), 'w') as f:
             f.write("dat_path = ['raw%d.dat']\nn_channels_dat = %d\ndtype = 'int16'\noffset = %d\n"
                     "sample_rate = %s\nhp_filtered = False\n" % (k, p['ncd'], p['offset'], rate_literal(p)))
